@@ -19,6 +19,7 @@ import (
 type CKKSSet struct {
 	P    h.CKKSSpec `json:"params"`
 	Bpw2 int        `json:"bpw2,omitempty"`
+	Keys KeyLevels  `json:"keys,omitempty"`
 }
 
 func (s CKKSSet) maxSlots() int {
@@ -93,7 +94,7 @@ func (c *ckksCtx) tol(level, terms, depth int) (float64, bool) {
 	s := c.set
 	n := s.P.N()
 	be, sl1 := s.P.Xe.AbsBound(), h.SecretL1(s.P.Xs, n)
-	ks := ksNoiseLog2(n, s.P.Q[:level+1], s.P.P, s.Bpw2, be, sl1)
+	ks := ksNoiseLog2(n, s.P.Q[:level+1], s.Keys.usedP(s.P.P), s.Bpw2, be, sl1)
 	tot := totalNoiseLog2(terms, depth, ks, be)
 	scale := float64(s.P.LogScale)
 	// coefficient error -> slot error: |sum e_i zeta^i| <= N |e|; encoding rounds every coefficient (<= 1/2 each, per
@@ -222,6 +223,7 @@ func genCKKSRot(t *rapid.T) CKKSRotCase {
 		c.Mode = "rot" // conjugation is documented as undefined in the conjugate-invariant ring
 	}
 	c.Level = rapid.IntRange(0, len(c.Set.P.Q)-1).Draw(t, "level")
+	c.Set.Keys = genSetKeys(t, &c.Set.P.RLWESpec, c.Level, c.Mode == "hoisted" || c.Mode == "hoistedNew")
 	logMax := bitsLen(c.Set.maxSlots())
 	c.LogSlots = genLogSlots(t, logMax, c.Set.P.CI)
 	c.Seed = rapid.Uint64().Draw(t, "seed")
@@ -281,7 +283,7 @@ func runCKKSRot(c CKKSRotCase, rec *h.Rec) error {
 	if usesConj {
 		galEls = append(galEls, p.GaloisElementForComplexConjugation())
 	}
-	keys := keysFor(ctx.kgen, ctx.sk, galEls, c.Set.Bpw2)
+	keys := keysFor(ctx.kgen, ctx.sk, galEls, c.Set.Bpw2, c.Set.Keys)
 	eval := ckks.NewEvaluator(p, keys)
 
 	check := func(op string, got *rlwe.Ciphertext, want []complex128, detail string) error {
@@ -399,6 +401,9 @@ func runCKKSRot(c CKKSRotCase, rec *h.Rec) error {
 		}
 	case "lazy":
 		levelP := p.MaxLevelP()
+		if c.Set.Keys.Set {
+			levelP = c.Set.Keys.LP // the caller decomposes for the auxiliary modulus of the keys
+		}
 		eval.DecomposeNTT(c.Level, levelP, levelP+1, ct.Value[1], ct.IsNTT, eval.BuffDecompQP)
 		var res map[int]*rlwe.Element[ringqp.Poly]
 		res, err = eval.RotateHoistedLazyNew(c.Level, c.Ks, ct, eval.BuffDecompQP)
@@ -434,6 +439,7 @@ func runCKKSRot(c CKKSRotCase, rec *h.Rec) error {
 	rec.Classf("ring=%s", ringName(c.Set.P.CI))
 	rec.Classf("logN=%d", c.Set.P.LogN)
 	rec.Classf("nP=%d", len(c.Set.P.P))
+	rec.Class(c.Set.Keys.class(p.MaxLevelQ(), p.MaxLevelP()))
 	sparse := slots < maxSlots
 	if sparse {
 		rec.Class("sparse")
@@ -482,6 +488,7 @@ func genCKKSSum(t *rapid.T) CKKSSumCase {
 	op := ckksSumOps[rapid.IntRange(0, len(ckksSumOps)-1).Draw(t, "op")]
 	c.Set = genCKKSSet(t, modReq{needP: op != "InnerFunction", termsN: true}, 8)
 	c.Level = rapid.IntRange(0, len(c.Set.P.Q)-1).Draw(t, "level")
+	c.Set.Keys = genSetKeys(t, &c.Set.P.RLWESpec, c.Level, op != "InnerFunction")
 	c.LogSlots = genLogSlots(t, bitsLen(c.Set.maxSlots()), c.Set.P.CI)
 	c.Seed = rapid.Uint64().Draw(t, "seed")
 	slots := 1 << c.LogSlots
@@ -553,7 +560,7 @@ func runCKKSSum(c CKKSSumCase, rec *h.Rec) error {
 	case "PartialTracesSum", "InnerFunction":
 		galEls = rlwe.GaloisElementsForInnerSum(p, a.Batch, a.N)
 	}
-	keys := keysFor(ctx.kgen, ctx.sk, galEls, c.Set.Bpw2)
+	keys := keysFor(ctx.kgen, ctx.sk, galEls, c.Set.Bpw2, c.Set.Keys)
 	eval := ckks.NewEvaluator(p, keys)
 
 	out := ct
@@ -673,6 +680,7 @@ func runCKKSSum(c CKKSSumCase, rec *h.Rec) error {
 	rec.Classf("op=%s", a.Op)
 	rec.Classf("ring=%s", ringName(c.Set.P.CI))
 	rec.Classf("logN=%d", c.Set.P.LogN)
+	rec.Class(c.Set.Keys.class(p.MaxLevelQ(), p.MaxLevelP()))
 	rec.Classf("args=%s", a.class(slots, slots))
 	if slots < maxSlots {
 		rec.Class("sparse")
